@@ -32,12 +32,11 @@ func v9inputs() [v9MaxN]int {
 
 // v9producer feeds the input channel (capacity = job parameter "cap"): sends the
 // n elements, then closes.
-func v9producer(xs *[v9MaxN]int, sent *int) <-chan int {
+func v9producer(xs *[v9MaxN]int) <-chan int {
 	in := make(chan int, vrt.Param("cap", 0))
 	vrt.Go("producer", func() {
 		for i := 0; i < v9n(); i++ {
 			in <- xs[i]
-			*sent++
 		}
 		close(in)
 	})
@@ -61,94 +60,79 @@ type v9err struct{ x int }
 
 func (e v9err) Error() string { return "v9err" }
 
-func v9F(x int) int  { return vrt.UF1("F", x) }
+// v9tag: the stage functions of the harnesses keep the index tag of their
+// argument in the two low bits of the result (the upper 62 bits are an
+// uninterpreted function of the argument), so that results of different
+// elements are different values and every ghost counter is a boolean.
+func v9tag(y, x int) int { return y<<2 | x&3 }
+
+func v9F(x int) int  { return v9tag(vrt.UF1("F", x), x) }
 func v9P(x int) bool { return vrt.Pred1("P", x) }
 func v9E(x int) bool { return vrt.Pred1("E", x) }
 
-// v9note: ghost bookkeeping of one application of the user function to x:
-// x must be an input element (not invented), is counted at its index, and no
-// element may be counted twice.
-func v9note(label string, xs *[v9MaxN]int, calls *[v9MaxN]int, x int) {
-	known, once := false, true
-	for i := 0; i < v9n(); i++ {
-		hit := x == xs[i]
-		known = vrt.Or(known, hit)
-		calls[i] += vrt.B2I(hit)
-		once = vrt.And(once, calls[i] <= 1)
-	}
-	vrt.Assert(label+".arg-is-input", known)
-	vrt.Assert(label+".at-most-once", once)
+// v9hit: slot i exists, is valid, and v is its value
+func v9hit(i int, v int, img *[v9MaxN]int, ok *[v9MaxN]bool) bool {
+	return i < v9n() && vrt.And(ok[i], v == img[i])
 }
 
-// v9same: every counter of the first n equals the matching expected count
-func v9same(cnt, want *[v9MaxN]int) bool {
+// v9mark: ghost bookkeeping of one event carrying value v (an application of
+// the user function to v, or the receipt of v by a consumer): v must be the
+// value of a valid slot (nothing invented) that has not been marked before
+// (nothing duplicated); the slot is marked. Runs inside goroutines: unrolled by
+// hand, a loop would cost one silent transition per iteration.
+func v9mark(label string, img *[v9MaxN]int, ok *[v9MaxN]bool, mark *[v9MaxN]bool, v int) {
+	h0, h1, h2, h3 := v9hit(0, v, img, ok), v9hit(1, v, img, ok), v9hit(2, v, img, ok), v9hit(3, v, img, ok)
+	vrt.Assert(label+".known", vrt.Any(h0, h1, h2, h3))
+	vrt.Assert(label+".once", vrt.Not(vrt.Any(vrt.And(h0, mark[0]), vrt.And(h1, mark[1]), vrt.And(h2, mark[2]), vrt.And(h3, mark[3]))))
+	if v9n() > 0 {
+		mark[0] = vrt.Or(mark[0], h0)
+	}
+	if v9n() > 1 {
+		mark[1] = vrt.Or(mark[1], h1)
+	}
+	if v9n() > 2 {
+		mark[2] = vrt.Or(mark[2], h2)
+	}
+	if v9n() > 3 {
+		mark[3] = vrt.Or(mark[3], h3)
+	}
+}
+
+// v9all: every one of the first n slots is true
+func v9all(a *[v9MaxN]bool) bool {
 	ok := true
 	for i := 0; i < v9n(); i++ {
-		ok = vrt.And(ok, cnt[i] == want[i])
+		ok = vrt.And(ok, a[i])
 	}
 	return ok
 }
 
-func v9ones() (o [v9MaxN]int) {
+// v9iff: for every slot, a[i] == (b[i] && c[i])
+func v9iff(a, b, c *[v9MaxN]bool) bool {
+	ok := true
 	for i := 0; i < v9n(); i++ {
-		o[i] = 1
+		ok = vrt.And(ok, a[i] == vrt.And(b[i], c[i]))
 	}
-	return
+	return ok
 }
 
-// v9tally: a consumer has received v: count it against every image slot it
-// equals (slot i is valid iff ok[i]); the value must equal some valid slot
-// (nothing invented) and no slot may be seen more often than its multiplicity
-// in the expected multiset (nothing duplicated).
-func v9tally(label string, img *[v9MaxN]int, ok *[v9MaxN]bool, mult, seen *[v9MaxN]int, v int) {
-	known, nodup := false, true
+func v9yes() (o [v9MaxN]bool) {
 	for i := 0; i < v9n(); i++ {
-		hit := vrt.And(ok[i], v == img[i])
-		known = vrt.Or(known, hit)
-		seen[i] += vrt.B2I(hit)
-		nodup = vrt.And(nodup, seen[i] <= mult[i])
-	}
-	vrt.Assert(label+".value-is-image", known)
-	vrt.Assert(label+".no-duplicate", nodup)
-}
-
-// v9mult: multiplicity of slot i in the expected multiset: number of valid
-// slots j whose value equals that of slot i (0 for an invalid slot)
-func v9mult(img *[v9MaxN]int, ok *[v9MaxN]bool) (m [v9MaxN]int) {
-	for i := 0; i < v9n(); i++ {
-		for j := 0; j < v9n(); j++ {
-			m[i] += vrt.B2I(vrt.All(ok[i], ok[j], img[i] == img[j]))
-		}
-	}
-	return
-}
-
-func v9b2i(b *[v9MaxN]bool) (o [v9MaxN]int) {
-	for i := 0; i < v9n(); i++ {
-		o[i] = vrt.B2I(b[i])
-	}
-	return
-}
-
-// v9dot: sum over i of cnt[i] where sel[i]
-func v9dot(cnt *[v9MaxN]int, sel *[v9MaxN]bool) (s int) {
-	for i := 0; i < v9n(); i++ {
-		s += cnt[i] * vrt.B2I(sel[i])
+		o[i] = true
 	}
 	return
 }
 
 // v9consume registers a consumer of an int channel: eager (take<0: until the
 // channel is closed), absent (take==0), or stopping for good after take values.
-func v9consume(name, label string, out <-chan int, img *[v9MaxN]int, ok *[v9MaxN]bool, mult, seen *[v9MaxN]int, got *int) {
+func v9consume(name, label string, out <-chan int, img *[v9MaxN]int, ok *[v9MaxN]bool, seen *[v9MaxN]bool) {
 	if v9take() == 0 {
 		return
 	}
 	if v9take() < 0 {
 		vrt.Go(name, func() {
 			for v := range out {
-				v9tally(label, img, ok, mult, seen, v)
-				*got++
+				v9mark(label, img, ok, seen, v)
 			}
 			vrt.Cover(label + ".drained")
 		})
@@ -160,23 +144,21 @@ func v9consume(name, label string, out <-chan int, img *[v9MaxN]int, ok *[v9MaxN
 			if !more {
 				break
 			}
-			v9tally(label, img, ok, mult, seen, v)
-			*got++
+			v9mark(label, img, ok, seen, v)
 		}
 	})
 }
 
 // v9consumeErr registers the consumer of the error channel: every error must be
 // v9err{x} of a failing input element x, at most once each.
-func v9consumeErr(label string, exx <-chan error, xs *[v9MaxN]int, bad *[v9MaxN]bool, emult, eseen *[v9MaxN]int, nerr *int) {
+func v9consumeErr(label string, exx <-chan error, xs *[v9MaxN]int, bad *[v9MaxN]bool, eseen *[v9MaxN]bool) {
 	if v9take() == 0 {
 		return
 	}
 	if v9take() < 0 {
 		vrt.Go("errors", func() {
 			for e := range exx {
-				v9tally(label, xs, bad, emult, eseen, e.(v9err).x)
-				*nerr++
+				v9mark(label, xs, bad, eseen, e.(v9err).x)
 			}
 			vrt.Cover(label + ".drained")
 		})
@@ -188,8 +170,7 @@ func v9consumeErr(label string, exx <-chan error, xs *[v9MaxN]int, bad *[v9MaxN]
 			if !more {
 				break
 			}
-			v9tally(label, xs, bad, emult, eseen, e.(v9err).x)
-			*nerr++
+			v9mark(label, xs, bad, eseen, e.(v9err).x)
 		}
 	})
 }
